@@ -41,6 +41,18 @@ class RunSet:
                 out.append((a, b))
         return RunSet(out)
 
+    def remove_interval(self, lo, hi):
+        out = []
+        for a, b in self.ivs:
+            if b < lo or a > hi:
+                out.append((a, b))
+                continue
+            if a < lo:
+                out.append((a, lo - 1))
+            if b > hi:
+                out.append((hi + 1, b))
+        return RunSet(out)
+
     def empty(self):
         return not self.ivs
 
@@ -53,6 +65,15 @@ class RunSet:
 
 def constrain(rs, atom, sym_name):
     """apply one rel atom over the run symbol; returns (RunSet, used?)"""
+    if atom[0] == "pred" and atom[2] is False:
+        # `!(lo..hi).contains(&run)` / `!(lo..=hi).contains(&run)` with literal bounds: the runs outside the range
+        import re as _re
+        m = _re.match(r"^Range::<Idx>::contains\(Range\{(\d+),(\d+)\},%s\)$" % _re.escape(sym_name), str(atom[1]))
+        if m:
+            return rs.remove_interval(int(m.group(1)), int(m.group(2)) - 1), True
+        m = _re.match(r"^RangeInclusive::<Idx>::contains\(RangeInclusive::<Idx>::new\((\d+),(\d+)\),%s\)$" % _re.escape(sym_name), str(atom[1]))
+        if m:
+            return rs.remove_interval(int(m.group(1)), int(m.group(2))), True
     if atom[0] != "rel":
         return rs, False
     p, op = atom[2], atom[3]
